@@ -38,6 +38,9 @@ MAX_VIOLATIONS_KEPT = 40  # per shard and per fingerprint-class; totals are stil
 
 def bind_repo() -> None:
     """Make `import pydsdl` pick the working tree under test (always /repo for the registered commands)."""
+    import logging
+
+    logging.disable(logging.CRITICAL)  # the library logs warnings (legacy extensions, ...) that are not observations
     p = str(REPO)
     if sys.path[0] != p:
         sys.path.insert(0, p)
@@ -134,8 +137,8 @@ class Acc:
         self.notes |= other.notes
 
 
-class CaseTimeout(Exception):
-    pass
+class CaseTimeout(BaseException):
+    """Derives from BaseException so that the implementation's own catch-all handlers cannot swallow the watchdog."""
 
 
 @contextlib.contextmanager
